@@ -292,74 +292,12 @@ fn verif_tp_validate_table() {
     kani::cover!(v == (1 << 60) + 1, "max_streams boundary value");
 }
 
-// C14-O2: the BLOCK decoder (TransportParameters::decode_parameters, both roles) on blocks of two
-// parameters `id len(1) value  id' len(1) value` - the first id is enumerated over the integer
-// parameters of RFC 9000 18.2 (a symbolic id makes CBMC execute all 20 field decoders per loop
-// iteration: no result in 20 min), the second id and both one-byte values are symbolic:
-// a repeated parameter makes decoding fail - whatever the values, in particular when the first
-// occurrence carries the RFC default - an unknown second id is skipped, and an accepted block
-// reports exactly the value on the wire for the first parameter.
-trait TpView {
-    fn get(&self, id: u8) -> u64;
-}
-
-impl<A, B, C, D> TpView for TransportParameters<A, B, C, D> {
-    fn get(&self, id: u8) -> u64 {
-        match id {
-            0x01 => self.max_idle_timeout.0.as_u64(),
-            0x03 => self.max_udp_payload_size.0.as_u64(),
-            0x04 => self.initial_max_data.0.as_u64(),
-            0x05 => self.initial_max_stream_data_bidi_local.0.as_u64(),
-            0x06 => self.initial_max_stream_data_bidi_remote.0.as_u64(),
-            0x07 => self.initial_max_stream_data_uni.0.as_u64(),
-            0x08 => self.initial_max_streams_bidi.0.as_u64(),
-            0x09 => self.initial_max_streams_uni.0.as_u64(),
-            0x0a => self.ack_delay_exponent.0 as u64,
-            0x0b => self.max_ack_delay.0.as_u64(),
-            0x0e => self.active_connection_id_limit.0.as_u64(),
-            _ => self.max_datagram_frame_size.0.as_u64(),
-        }
-    }
-}
-
-fn tp_block_case<P, F>(id1: u8, decode: F)
-where
-    F: Fn(DecoderBuffer) -> Result<P, s2n_codec::DecoderError>,
-    P: TpView,
-{
-    let v1: u8 = kani::any();
-    let v2: u8 = kani::any();
-    kani::assume(v1 < 64 && v2 < 64);
-    // the same parameter twice. RFC 9000 7.4: MUST NOT send a parameter more than once
-    let block = [id1, 1, v1, id1, 1, v2];
-    let res = decode(DecoderBuffer::new(&block));
-    assert!(res.is_err());
-    kani::cover!(v1 == 0, "duplicate after a zero value");
-    kani::cover!(v1 == v2, "identical duplicate");
-    // the parameter followed by one this implementation does not know (id 0x3f): skipped
-    let block = [id1, 1, v1, 0x3f, 1, v2];
-    if let Ok(p) = decode(DecoderBuffer::new(&block)) {
-        assert!(p.get(id1) == v1 as u64);
-        kani::cover!(true, "parameter followed by an unknown one accepted");
-    }
-}
-
-macro_rules! tp_block {
-    ($client:ident, $server:ident, $id:expr) => {
-        #[cfg_attr(kani, kani::proof)]
-        #[cfg_attr(kani, kani::unwind(8))]
-        fn $client() {
-            tp_block_case($id, |b| ClientTransportParameters::decode_parameters(b));
-        }
-        #[cfg_attr(kani, kani::proof)]
-        #[cfg_attr(kani, kani::unwind(8))]
-        fn $server() {
-            tp_block_case($id, |b| ServerTransportParameters::decode_parameters(b));
-        }
-    };
-}
-
-tp_block!(verif_tp_block_client_01, verif_tp_block_server_01, 0x01);
+// NOT covered: the BLOCK decoder TransportParameters::decode_parameters (duplicate detection,
+// unknown ids, role-specific ids). Measured out of reach four times: a 6-byte block
+// `id 1 v  id 1 v` with symbolic ids - no result in 20 min; first id concrete - 20 min; both ids
+// concrete, only the two value bytes symbolic - 20 min of symbolic execution, then 16 GB and growing
+// after 21 min in a 2 h run. CBMC does not constant-fold the tag read after the first parameter, so
+// every loop iteration executes all 20 field decoders (each with its varint pow() loops).
 
 // ---- generated by tools/fixup.py: native replay entry ----
 #[cfg(not(kani))]
@@ -381,6 +319,5 @@ fn verif_replay() {
         ("verif_tp_max_datagram_frame_size", verif_tp_max_datagram_frame_size),
         ("verif_tp_max_ack_delay", verif_tp_max_ack_delay),
         ("verif_tp_active_connection_id_limit", verif_tp_active_connection_id_limit),
-        ("verif_tp_block_client_01", verif_tp_block_client_01),
     ]);
 }
